@@ -7,12 +7,13 @@ From VF Require Import Base.Sx FileH.Str FileH.Unquote FileH.Handler FileH.Spec 
 Import ListNotations.
 Open Scope N_scope.
 
-(* oracle answers: kind 0 = regular file (content), 1 ENOENT, 2 EISDIR, 3 ENOTDIR, 4 ENAMETOOLONG, 5 EACCES, 6 other *)
+(* oracle answers: kind 0 = regular file (content), 1 ENOENT, 2 EISDIR, 3 ENOTDIR, 4 ENAMETOOLONG, 5 EACCES,
+   6 other OSError, 7 EACCES for a directory *)
 Definition fs_table := list (str * N * str).
 Definition fsr_of (kind : N) (content : str) : fsr :=
   if kind =? 0 then FsOpened content else if kind =? 1 then FsENOENT else if kind =? 2 then FsEISDIR
   else if kind =? 3 then FsENOTDIR else if kind =? 4 then FsENAMETOOLONG else if kind =? 5 then FsEACCES
-  else FsEOTHER.
+  else if kind =? 7 then FsEACCES_DIR else FsEOTHER.
 Fixpoint table_lookup (t : fs_table) (p : str) : option fsr :=
   match t with
   | [] => None
@@ -123,7 +124,8 @@ Definition holds (k : case) (o : obs) : list string :=
              | Some FsENOENT | Some FsEISDIR | Some FsENOTDIR | Some FsENAMETOOLONG =>
                  if o_class o =? 0 then [] else ["not_regular_is_not_found"%string]
              | Some FsEACCES => if o_class o =? 1 then [] else ["permission_is_forbidden"%string]
-             | Some FsEOTHER => []
+             | Some FsEACCES_DIR => if o_class o =? 0 then [] else ["permission_on_directory_is_not_found"%string]
+             | Some FsEOTHER => if o_class o =? 2 then [] else ["other_error_is_the_result"%string]
              end
          end
        else if (o_class o =? 4) then [] else ["not_handled"%string])
